@@ -303,15 +303,19 @@ def case_lm(H, kind, damping, clamp, strategy='Constant'):
             want = [[base[i][j] + (lam * base[i][i] if i == j else 0) for j in range(nc)] for i in range(nc)]
             for i in range(nc):
                 for j in range(nc):
-                    if k == 0:
+                    if k == 0 and i != j:
+                        # off-diagonal entries carry no clamp: a polynomial identity modulo the unit-quaternion relations
+                        H.certify('%s/path%d/trial%d/A[%d,%d]' % (name, pn, k, i, j), A[i * nc + j], want[i][j], rels, hyps=hyp, key='C07/LM/assembly',
+                                  replay=replay_trial0, timeout=20)
+                    elif k == 0:
                         d_ = A[i * nc + j] - want[i][j]
                         H.prove('%s/path%d/trial%d/A[%d,%d]' % (name, pn, k, i, j), hyp, A[i * nc + j] == want[i][j], key='C07/LM/assembly', timeout=(10 if i == j else 20),
                                 neg_margin=z3.Or(d_ > z3.RealVal('1/1000'), d_ < -z3.RealVal('1/1000')), replay=replay_trial0)
                     else:
                         H.prove('%s/path%d/trial%d/A_k==A_(k-1)+lambda.diag[%d,%d]' % (name, pn, k, i, j), hyp, A[i * nc + j] == want[i][j],
                                 key='C07/LM/damping-recursion', timeout=20, replay=replay_lm)
-                H.prove('%s/path%d/trial%d/b[%d]' % (name, pn, k, i), hyp, b[i] == -JtR[i], key='C07/LM/assembly', timeout=20,
-                        replay=(replay_trial0 if k == 0 else None))
+                H.certify('%s/path%d/trial%d/b[%d]' % (name, pn, k, i), b[i], -JtR[i], rels, hyps=hyp, key='C07/LM/assembly', timeout=20,
+                          replay=(replay_trial0 if k == 0 else None))
             prev = A
         if pn % 2 == 0:
             H.reach('%s/path%d/reach' % (name, pn), hyp)
